@@ -30,10 +30,12 @@ type schedRun struct {
 	script   []string                       // guided strategy: goroutine names to release, in order
 	diverged bool
 	pct      map[string]int // priorities (PCT-like strategy) when non-nil
+	forceStep int           // hold forceWho until this step, then release it first (-1: off)
+	forceWho  []string
 }
 
 func newSchedRun(g *prng) *schedRun {
-	r := &schedRun{g: g, maxSteps: 20000, holds: map[string]func(int) bool{}}
+	r := &schedRun{g: g, maxSteps: 20000, holds: map[string]func(int) bool{}, forceStep: -1}
 	r.s = &verifScheduler{gs: map[int64]*verifG{}, byName: map[string]*verifG{}, count: map[string]int{}}
 	verifSchedMu.Lock()
 	verifSched = r.s
@@ -91,7 +93,35 @@ func (r *schedRun) quiet() int {
 			return n
 		}
 		var pick *verifG
-		if len(r.script) > 0 {
+		if r.forceStep >= 0 {
+			isForced := func(n string) bool {
+				for _, w := range r.forceWho {
+					if n == w {
+						return true
+					}
+				}
+				return false
+			}
+			var rest []*verifG
+			for _, g := range ps {
+				if isForced(g.name) {
+					if r.steps >= r.forceStep && pick == nil {
+						pick = g
+					}
+				} else {
+					rest = append(rest, g)
+				}
+			}
+			if pick == nil {
+				if len(rest) == 0 {
+					// only the held actor is left: release it now
+					pick = ps[0]
+				} else {
+					ps = rest
+				}
+			}
+		}
+		if pick == nil && len(r.script) > 0 {
 			want := r.script[0]
 			r.script = r.script[1:]
 			for _, g := range ps {
